@@ -110,6 +110,17 @@ def _gen_opts(r: Rng, ds: dsdlgen.DsdlSet, lang: typing.Optional[str]) -> dict:
         o["pp_prog"] = r.choice([True, "rename", "crlf"])  # an external post-processor (a formatter sensitive to the file's name / a line-ending normaliser)
     if r.chance(1, 8) and lang in ("c", "cpp"):
         o["extra_support"] = r.choice([True, "readonly"])
+    if r.chance(1, 6):
+        # two or three --configuration files that disagree about keys visible in the output: the LAST one wins, in
+        # every world (their order is an option, not an accident of hashing or location)
+        vals = {"c": ("target_endianness", ["little", "big", "any"]), "cpp": ("target_endianness", ["little", "big", "any"])}.get(lang)
+        docs = []
+        for i in range(r.between(2, 3)):
+            d = {"stropping_prefix": r.choice(["_", "zq", "x_"]), "limit_empty_lines": r.choice([0, 1, 2])}
+            if vals:
+                d["options"] = {vals[0]: r.choice(vals[1])}
+            docs.append(d)
+        o["cfg_docs"] = docs
     if r.chance(1, 8):
         o["trim_blocks"] = True
     if r.chance(1, 8):
@@ -311,6 +322,17 @@ def run_case(case: dict, ctx: dict) -> dict:
             usertpl.plant(world.tpl_dir, o["templates"], usertpl.builtin_copy(o["lang"]) if o["templates"] == "builtin_copy" else usertpl.SETS[o["templates"]])
         if o.get("support_templates"):
             usertpl.plant(world.tpl_dir, o["support_templates"], usertpl.SUPPORT_SETS[opts["support_templates"]](o["lang"]))
+        if o.get("cfg_docs"):
+            import yaml
+
+            cfg_dir = os.path.join(sandbox, "cfg")  # (same absolute path in every world)
+            os.makedirs(cfg_dir, exist_ok=True)
+            o["configs"] = []
+            for ci, d in enumerate(o.pop("cfg_docs")):
+                cp = os.path.join(cfg_dir, ["vendor", "project", "local"][ci % 3] + ".yaml")
+                with open(cp, "w", encoding="utf-8") as f:
+                    yaml.safe_dump({"nunavut.lang.%s" % o["lang"]: d}, f)
+                o["configs"].append(cp)
         sp = delta.get("spelling", ["abs", "abs"])
         o["in_spelling"], o["outdir_spelling"] = sp[0], sp[1]
         # the "machine" besides inputs and outputs: temporary, home and cache directories (pristine in every world
